@@ -179,7 +179,7 @@ def gen_only(binary, engine, sd, i, tier, extra_args=(), env=None):
     return None, []
 
 
-def isolate_anomaly(engine, res, tier, build_name="default", per_run_timeout=180, extra_args=(), env=None, rlimit_as=None):
+def isolate_anomaly(engine, res, tier, build_name="default", per_run_timeout=90, extra_args=(), env=None, rlimit_as=None):
     """A chunk stalled or the worker died (abort, stack overflow, memory limit): the worker's
     progress markers name the in-flight run; confirm it alone with a fresh (longer) limit
     before it is believed, then carry on with the rest of the chunk."""
@@ -198,7 +198,7 @@ def isolate_anomaly(engine, res, tier, build_name="default", per_run_timeout=180
             raise HarnessError(f"worker for {engine} {lo}..{hi} failed before its first run: {cur.get('stderr')}")
         # runs before i in this chunk completed but their summary is lost: redo them (cheap)
         if i > lo:
-            redo = _run_chunk(binary, engine, sd, lo, i, tier, per_run_timeout * 10, extra_args, env, rlimit_as)
+            redo = _run_chunk(binary, engine, sd, lo, i, tier, 300, extra_args, env, rlimit_as)
             out.extend(x for x in redo["lines"] if x.get("type") == "violation")
             summaries.extend(x for x in redo["lines"] if x.get("type") == "summary")
         alone = _run_chunk(binary, engine, sd, i, i + 1, tier, per_run_timeout, extra_args, env, rlimit_as)
@@ -225,7 +225,9 @@ def isolate_anomaly(engine, res, tier, build_name="default", per_run_timeout=180
         lo = i + 1
         if lo >= hi:
             break
-        cur = _run_chunk(binary, engine, sd, lo, hi, tier, per_run_timeout * 10, extra_args, env, rlimit_as)
+        if any(x.get("process_level") for x in out):
+            break  # verdict reached; the rest of this chunk is not needed for it
+        cur = _run_chunk(binary, engine, sd, lo, hi, tier, 120, extra_args, env, rlimit_as)
     return out, summaries
 
 
@@ -279,7 +281,7 @@ def replay_file(path, timeout=300):
     build_name = rec.get("build", "default")
     binary = build(build_name)  # always against /repo's current tree
     if rec.get("process_level"):
-        timeout = min(timeout, 200)
+        timeout = min(timeout, 100)
     try:
         r = subprocess.run(
             [binary, engine, "--replay", path], capture_output=True, text=True, timeout=timeout, env=rec_env(rec)
@@ -360,6 +362,60 @@ def triage(prop, violations, known_entries):
     return new, known
 
 
+def _proc_reproduces(rec, case, timeout):
+    """Does `case` still stall / kill the worker?"""
+    import tempfile
+
+    binary = sim_bin(rec.get("build", "default"))
+    with tempfile.NamedTemporaryFile("w", suffix=".json", delete=False) as f:
+        json.dump({"case": case, "engine": rec["engine"]}, f)
+        path = f.name
+    try:
+        r = subprocess.run([binary, rec["engine"], "--replay", path], capture_output=True, text=True, timeout=timeout, env=rec_env(rec))
+        return r.returncode not in (0, 1)
+    except subprocess.TimeoutExpired:
+        return "/process/hang" in rec["key"]
+    finally:
+        os.unlink(path)
+
+
+def minimise_process_level(rec, budget=8, step_timeout=20):
+    """Delta debugging for stalls/aborts: the worker cannot shrink what kills it, so the parent
+    drops hit-object lines of the stored file while a fresh worker still stalls or dies."""
+    case = rec.get("case")
+    if not case or "content" not in case or "text" not in case["content"]:
+        return rec
+    text = case["content"]["text"]
+    if "[HitObjects]" not in text:
+        return rec
+    head, objs = text.split("[HitObjects]", 1)
+    lines = [l for l in objs.split("\n") if l.strip()]
+    used = 0
+
+    def mk(ls):
+        c = json.loads(json.dumps(case))
+        c["content"]["text"] = head + "[HitObjects]\n" + "\n".join(ls) + "\n"
+        return c
+
+    progress = True
+    while progress and used < budget and len(lines) > 1:
+        progress = False
+        n = len(lines)
+        for cand in (lines[: n // 2], lines[n // 2 :], lines[: n - max(1, n // 4)], lines[max(1, n // 4) :]):
+            if used >= budget or not cand or len(cand) == n:
+                continue
+            used += 1
+            if _proc_reproduces(rec, mk(cand), step_timeout):
+                lines = cand
+                progress = True
+                break
+    small = dict(rec)
+    small["case"] = mk(lines)
+    small["minimise_steps"] = used
+    small["original_case"] = case
+    return small
+
+
 def report(prop, new, known):
     for k, info in sorted(known.items()):
         e = info["entry"]
@@ -368,8 +424,15 @@ def report(prop, new, known):
     for v in new:
         v = dict(v)
         v["property"] = prop
+        if v.get("process_level") and v.get("case"):
+            v = minimise_process_level(v)
         path = write_replay(prop, v)
         rep = replay_file(path)
+        if not rep.get("reproduced") and v.get("original_case"):
+            # the shrunk file is only slow, not stalled: fall back to the case as generated
+            v["case"] = v.pop("original_case")
+            path = write_replay(prop, v)
+            rep = replay_file(path)
         if not rep.get("reproduced"):
             # never report something that does not replay as a property violation
             print(f"HARNESS-ERROR: replay {path} did not reproduce ({rep})", file=sys.stderr)
@@ -468,6 +531,7 @@ def run_sim_check(prop, tier, level="exploration", extra_cov=None):
     known_entries = load_known()
     all_sum, all_vio = [], []
     builds = sorted({c["build"] for c in SIM_CHECKS[prop]})
+    skipped_anomalies = []
     for b in builds:
         build(b)
     for c in SIM_CHECKS[prop]:
@@ -477,8 +541,15 @@ def run_sim_check(prop, tier, level="exploration", extra_cov=None):
         env = shim_env() if c.get("shim") else None
         rl = c.get("rlimit_as")
         sums, vios, anomalies = shard(engine, runs, tier, b, env=env, rlimit_as=rl, timeout=c.get("chunk_timeout", 900))
+        confirmed = 0
         for an in anomalies:
+            if confirmed >= 1:
+                # one confirmed stall/abort of this engine is a verdict; isolating dozens more
+                # (minutes each) would only delay it
+                skipped_anomalies.append((engine, b, an["from"], an["to"]))
+                continue
             v2, s2 = isolate_anomaly(engine, an, tier, b, env=env, rlimit_as=rl)
+            confirmed += sum(1 for x in v2 if x.get("process_level"))
             vios.extend(v2)
             sums.extend(s2)
         for v in vios:
@@ -516,6 +587,7 @@ def run_sim_check(prop, tier, level="exploration", extra_cov=None):
         "components": COMPONENTS,
         "builds": builds,
         "workers": WORKERS,
+        "stalled_or_dead_chunks_not_isolated": skipped_anomalies,
     }
     if extra_cov:
         cov.update(extra_cov)
